@@ -157,6 +157,13 @@ class Ctx:
         self.t0 = time.time()
         self.rng = SplitMix(seed * 1000003 + int(pid[1:]))
         self._sweep_stale()
+        # A run against a mutated tree (VERIF_REPO != /repo) regenerates lean/UvModel/Generated from
+        # that tree; it must not be observed by concurrent runs against the real tree.  Mutant runs
+        # hold this lock exclusively for their whole life, normal runs share it during their Lean phase.
+        self._mutant = str(REPO) != "/repo"
+        CACHE.mkdir(parents=True, exist_ok=True)
+        self._mlock = open(CACHE / "mutant.lock", "w")
+        fcntl.flock(self._mlock, fcntl.LOCK_EX if self._mutant else fcntl.LOCK_SH)
         self.tmp = Path(tempfile.mkdtemp(prefix=f"uvv-{pid}-", dir=str(self._tmproot())))
         atexit.register(lambda: shutil.rmtree(self.tmp, ignore_errors=True))
         self.obligations = []       # (name, ok, detail)
@@ -234,6 +241,11 @@ class Ctx:
                     ok, log = False, dlog
         if driver:
             self._snapshot_driver()
+        if not self._mutant:
+            try:
+                fcntl.flock(self._mlock, fcntl.LOCK_UN)
+            except OSError:
+                pass
         if not ok:
             # find which modules failed
             failed = re.findall(r"^- (\S+)", log, re.M) or ["?"]
@@ -439,6 +451,8 @@ class Ctx:
         self.log(f"done rc={rc} obligations={ndis}/{nobl} evaluations={cov['evaluations']} "
                  f"distinct_nontrivial={cov['distinct_nontrivial']} wall={wall:.1f}s")
         shutil.rmtree(self.tmp, ignore_errors=True)
+        if self._mutant:
+            sh(["git", "-C", str(VERIF), "checkout", "--", "lean/UvModel/Generated"])
         sys.exit(rc)
 
 
